@@ -94,7 +94,7 @@ BOUNDS = {
                           "distinct(key): <= 3 partitions, <= 3 unbounded elements, key x % 2",
                   stats="mean / var / std (ddof 0, 1): <= 2 partitions, <= 3 elements in [-1, 2]",
                   second_operand="concat / product: 3 fixed structures of <= 2 symbolic elements; join: [2*w0, 2*w1 + 1] symbolic as bag / Delayed, constants as list"),
-    "thorough": dict(structure="1..5 partitions, 0..5 elements in total", reductions="1..6 partitions, <= 5 elements, split_every in {2, 3, None}",
+    "thorough": dict(structure="1..5 partitions, 0..5 elements in total (flatten: <= 4 list-valued elements of 0..2 leaves each)", reductions="1..6 partitions, <= 5 elements, split_every in {2, 3, None}",
                      forking="1..4 partitions, <= 4 elements, split_every in {2, 3, None}",
                      hashing="1..4 partitions, <= 4 elements (distinct / frequencies elements in [0, 2])", stats="<= 3 partitions, <= 4 elements in [-2, 2]",
                      second_operand="as quick"),
